@@ -270,7 +270,9 @@ let run_inf (a : string array) : string * string =
 let run_txt (a : string array) : string * string =
   let hs = parse_headers ~cp:true a.(0) in
   let body = unhex a.(1) in
-  let canon = match decode_text for_label enc_decode hs body with
+  (* the label table is asked with the NORMALISED label (Model/Coding.v label_norm): if encoding_rs normalised
+     differently, model and crate would disagree here *)
+  let canon = match decode_text (for_label_of for_label) enc_decode hs body with
     | Some t -> "some;" ^ hex_of_codepoints t
     | None -> "none" in
   (canon, "")
